@@ -68,6 +68,28 @@
   X(void, m4shim_col_swap, (mzd_t *, rci_t, rci_t))                                         \
   X(void, m4shim_row_swap, (mzd_t *, rci_t, rci_t))                                         \
   X(void, m4shim_row_add_offset, (mzd_t *, rci_t, rci_t, rci_t))                            \
+  X(void, m4shim_col_swap_in_rows, (mzd_t *, rci_t, rci_t, rci_t, rci_t))                   \
+  X(word, m4shim_read_bits, (mzd_t const *, rci_t, rci_t, int))                             \
+  X(int, m4shim_read_bits_int, (mzd_t const *, rci_t, rci_t, int))                          \
+  X(void, m4shim_xor_bits, (mzd_t *, rci_t, rci_t, int, word))                              \
+  X(void, m4shim_and_bits, (mzd_t *, rci_t, rci_t, int, word))                              \
+  X(void, m4shim_clear_bits, (mzd_t *, rci_t, rci_t, int))                                  \
+  X(void, m4shim_combine, (mzd_t *, rci_t, wi_t, mzd_t const *, rci_t, wi_t, mzd_t const *, rci_t, wi_t)) \
+  X(word, m4shim_hash, (mzd_t const *))                                                     \
+  X(void, m4shim_fprint, (FILE *, mzd_t const *))                                           \
+  X(void, mzd_row_add, (mzd_t *, rci_t, rci_t))                                             \
+  X(void, mzd_copy_row, (mzd_t *, rci_t, mzd_t const *, rci_t))                             \
+  X(rci_t, mzd_gauss_delayed, (mzd_t *, rci_t, int))                                        \
+  X(double, mzd_density, (mzd_t const *, wi_t))                                             \
+  X(double, _mzd_density, (mzd_t const *, wi_t, rci_t, rci_t))                              \
+  X(int, mzd_find_pivot, (mzd_t const *, rci_t, rci_t, rci_t *, rci_t *))                   \
+  X(void, mzd_randomize_custom, (mzd_t *, m4ri_random_callback, void *))                    \
+  X(void, mzd_row_clear_offset, (mzd_t *, rci_t, rci_t))                                    \
+  X(void, mzd_make_table, (mzd_t const *, rci_t, rci_t, int, mzd_t *, rci_t *))             \
+  X(void, mzd_process_rows, (mzd_t *, rci_t, rci_t, rci_t, int, mzd_t const *, rci_t const *)) \
+  X(mzd_t *, mzd_trtri_upper_russian, (mzd_t *, int))                                       \
+  X(void, mzd_info, (const mzd_t *, int))                                                   \
+  X(void, mzp_set_ui, (mzp_t *, unsigned int))                                              \
   X(mzd_t *, mzd_from_png, (const char *, int))                                             \
   X(int, mzd_to_png, (const mzd_t *, const char *, int, const char *, int))                 \
   X(mzd_t *, mzd_from_jcf, (const char *, int))                                             \
